@@ -5,6 +5,7 @@ from collections import Counter
 from . import common as C
 from . import proggen as G
 from . import execchecks as E
+from . import scripted as S
 
 HEADER = "Hyeo-ung Programming Language\ntype help for help\n"
 HELP = ("clear  Clears the state\nexit   Exit this interpreter\n       You can also exit by typing \"흑.하앙...\"\nhelp   Print this\n")
@@ -22,6 +23,8 @@ def gen_history(rng):
         pieces = ("형" + "." * 65 + " 항. 혀어어어어어어엉" + "." * 6912 + " 항. 형.. 항.").split(" ")
     elif r < 0.4:
         pieces = [G.render_cmd(c) for c in cmds] + ["흑.", "항"]
+    elif r < 0.75:
+        pieces = S.scripted(rng, with_read=False).split(" ")
     else:
         pieces = [G.render_cmd(c) for c in cmds]
     # random composition into lines
@@ -36,6 +39,15 @@ def gen_history(rng):
     if rng.random() < 0.15:
         j = rng.randrange(len(lines) + 1)
         lines.insert(j, ("clear", rng.choice(["clear", "  clear "])))
+    if rng.random() < 0.3:
+        # a second program after `clear`: whatever the first left behind (stacks, labels, last jump source) must be gone
+        lines.append(("clear", "clear"))
+        second = S.scripted(rng, with_read=False).split(" ")
+        i = 0
+        while i < len(second):
+            k = rng.choice([1, 2, 4, len(second)])
+            lines.append(("code", " ".join(second[i:i + k])))
+            i += k
     return lines
 
 
